@@ -65,6 +65,16 @@ RNE(mag, e, p) ==
              half == Pow2(sh - 1)
              up == Gt(rem, half) \/ (rem = half /\ BitM(qq.m, 0) = 1)
          IN NormDyadic(IF up THEN Add(qq, One) ELSE qq, e + sh)
+\* the two p-bit neighbours of mag * 2^e (toward zero, away from zero); equal when mag fits p bits
+RTowardZero(mag, e, p) ==
+    LET bl == BitLen(mag) IN IF bl <= p THEN NormDyadic(mag, e) ELSE NormDyadic(ShrTrunc(mag, bl - p), e + (bl - p))
+RAwayFromZero(mag, e, p) ==
+    LET bl == BitLen(mag) IN
+    IF bl <= p THEN NormDyadic(mag, e)
+    ELSE LET sh == bl - p  qq == ShrTrunc(mag, sh)
+         IN NormDyadic(IF ModPow2(mag, sh) = Zero THEN qq ELSE Add(qq, One), e + sh)
+\* faithful rounding: one of the two neighbours (C++ leaves the choice to the implementation for integer -> floating)
+IsFaithful(r, mag, e, p) == r = RTowardZero(mag, e, p) \/ r = RAwayFromZero(mag, e, p)
 FloatEmax(p) == CASE p = 24 -> 128 [] p = 53 -> 1024 [] OTHER -> 16384
 FloatEminNormal(p) == CASE p = 24 -> -126 [] p = 53 -> -1022 [] OTHER -> -16382
 =============================================================================
